@@ -97,6 +97,8 @@ uint64_t sim_now_ns(void);
 uint64_t sim_steps(void);
 void sim_sleep_ns(uint64_t ns); /* not a cancellation point */
 void sim_sched_point(void);
+/* directed yield: hand the baton to task `id` if it is runnable (used to fire an operator action at a chosen point) */
+void sim_switch_to_task(int id);
 /* Block until sim_wake() on obj, the deadline, or (if cancellable) a pending enabled cancel. */
 enum sim_wake_reason sim_block(enum sim_wait_kind kind, const void *obj, uint64_t deadline_ns, int cancellable);
 void sim_wake(enum sim_wait_kind kind, const void *obj);
